@@ -57,3 +57,13 @@ package protocol
 //@   ensures @to1 result == TO1Protocol <==> (msgType >= 30 && msgType <= 33)
 //@   ensures @to2 result == TO2Protocol <==> (msgType >= 60 && msgType <= 71)
 //@   ensures @any result == AnyProtocol <==> msgType == 255
+
+// an X5CHAIN key: the subject key is the key of the first (leaf) certificate of the
+// chain, whatever the number of certificates; the chain is kept in wire order (C09, C04)
+//@ func protocol.PublicKey.parseX5Chain
+//@   props C09 C04 C10(sweep)
+//@   sweep bounds,panic,make,nilmem
+//@   invariant loop#1: forall k in 0..rangeindex+1: certs[k] != nil
+//@   ensures @leaf ? err == nil ==> u(pub.key) == u(certs[0].PublicKey)
+//@   ensures @chainlen ? err == nil ==> len(pub.chain) == len(certs) && len(certs) > 0
+//@   ensures @cleared ? err != nil ==> pub.key == old(pub.key)
